@@ -112,7 +112,7 @@ let run_inst (i : 'a inst) (g : config) (progs : op list list) (sched : int list
     (id : string) (out : out_channel) =
   if expl > 0 then explore i g progs expl out id
   else begin
-    let (s, raced) = run_case i.cinit i.cclosed i.proc i.fl g (nat_of_int 100000) progs (Stdlib.List.map nat_of_int sched) in
+    let (s, raced) = run_case i.cinit i.cclosed i.proc i.fl g (nat_of_int 3000) progs (Stdlib.List.map nat_of_int sched) in
     let evs = Stdlib.List.filter_map event_s (Stdlib.List.rev s.s_log) in
     let lines = evs @ [final_line i s] in
     Stdlib.List.iteri (fun k l -> Printf.fprintf out "%s\t%d\t%s\n" id k l) lines;
